@@ -48,6 +48,9 @@ def std_config(keys, nacct=6, locked=True):
         ("client2", "Wallet 2", ["All"]),
         ("client3", "Wallet 1/Account 0", ["~Sign beacon proposal", "Sign beacon attestation", "Sign"]),
         ("client3", "Wallet 2", ["None"]),
+        # layered entries that overlap on one account: the narrow one decides proposals, the broad one everything else
+        ("client4", "Wallet 1/Account 1", ["Sign beacon proposal"]),
+        ("client4", "Wallet 1", ["~Sign beacon proposal", "All"]),
         ("clientall", "", ["All"]) if False else ("clientall", ".*", ["All"]),
     ]
     admins = ["10.0.0.1", "::1"]
@@ -208,7 +211,7 @@ class HistGen:
         return k
 
     def client(self):
-        return self.r.weighted([("client1", 60), ("client2", 8), ("client3", 10), ("clientall", 14), ("nobody", 4), ("", 2)])
+        return self.r.weighted([("client1", 50), ("client2", 8), ("client3", 10), ("client4", 16), ("clientall", 12), ("nobody", 4), ("", 2)])
 
     def pick_acct(self):
         # the locked account costs a keystore decryption attempt per request: pick it rarely
@@ -223,15 +226,21 @@ class HistGen:
         good = [a for a in self.accts if a.unlockable and a.wallet == "Wallet 1"]
         kind = r.weighted([("att", 40), ("atts", 30), ("prop", 20), ("restart", 4), ("export", 6)])
         c = r.choice(["client1", "clientall"])
+        # client4 holds layered, overlapping entries that authorise everything on "Account 1" only
+        def c_for(accts_):
+            return "client4" if all(x.name == "Account 1" for x in accts_) and r.chance(0.6) else c
         if kind == "att":
             a = r.choice(good)
+            c = c_for([a])
             return "att %s - %s %s -" % (hx(c), self.addr(a, allow_both=False), self.att_data(a, "att"))
         if kind == "atts":
             n = r.weighted([(1, 1), (2, 4), (3, 4), (len(good), 3)])
             picks = r.shuffle(good)[:n]
+            c = c_for(picks)
             return "atts %s - - %s" % (hx(c), ";".join(self.addr(a, allow_both=False) + "," + self.att_data(a, "att") for a in picks))
         if kind == "prop":
             a = r.choice(good)
+            c = c_for([a])
             hs_ = self.hi_slot.get(a.pk, -1)
             mode = r.weighted([("adv", 60), ("same", 15), ("lower", 12), ("edge", 5), ("zero", 8)])
             slot = {"adv": hs_ + 1 + r.below(3), "same": max(hs_, 0), "lower": max(hs_ - 1 - r.below(3), 0),
